@@ -19,5 +19,6 @@ func main() {
 	mon.RegisterBatch("c23-conc", childConc)
 	mon.Main("mthandle", map[string]mon.PropFunc{
 		"C23": runC23,
+		"C24": runC24,
 	})
 }
